@@ -204,3 +204,60 @@ def switches2_nocache(c0: int, e0: int, c1: int, e1: int, l1: int, a0: int, b0: 
 def switches3(nc: bool, c0: int, e0: int, l0: int, c1: int, e1: int, l1: int, c2: int, e2: int, l2: int,
               a0: int, b0: int, a1: int, b1: int, a2: int, b2: int, order: bool) -> int:
     return _run(nc, [(c0, e0, l0, a0, b0), (c1, e1, l1, a1, b1), (c2, e2, l2, a2, b2)], order)
+
+
+@harness("C16", lemma="reused-contexts", cubes={"which": [0, 1, 2]}, stubs=("S1",), example=dict(which=2, a=1, b=2, nested=True), timeout=600,
+         bounds="ONE labrea.logging.disabled() / labrea.cache.disabled() runtime object created up front and reused by nested helper "
+                "calls (entered while already active), followed by an evaluation with all switches off",
+         what="after the switched-off blocks are left - however the same context object was nested - an evaluation with all switches "
+              "off logs its INFO requests and uses the cache again (side behaviour of later evaluations is not silenced for good)")
+def reused_contexts(which: int, a: int, b: int, nested: bool) -> int:
+    bodies, requests = [], []
+    emitted = _Emitted()
+    real_logging = llogging.logging
+    llogging.logging = emitted
+    try:
+        with untraced():
+            def body(x: int = Option("A")):
+                bodies.append(x)
+                return ("v", x)
+
+            d = dataset(body)
+        QUIET = llogging.disabled()
+        NOCACHE = labrea.cache.disabled()
+        ctx = [QUIET, NOCACHE, QUIET][which]
+
+        def helper(o):
+            with ctx:
+                if nested:
+                    with ctx:
+                        d(o)
+                if which == 2:
+                    with labrea.cache.disabled():        # derived here, i.e. from the (reused) logging-off runtime
+                        return d(o)
+                return d(o)
+
+        r1 = outcome(lambda: helper({"A": a}))
+        n_bodies, n_emitted = len(bodies), len(emitted.records)
+        r2 = outcome(lambda: d({"A": b}))          # all switches off, new options: computed and logged
+        r3 = outcome(lambda: d({"A": b}))          # exact repeat: served from the cache, nothing logged
+        note("which", which, "nested", nested, "results", r1, r2, r3, "body runs", bodies, "emitted", emitted.records)
+        if r1[0] != "ok" or r2[0] != "ok" or r3[0] != "ok":
+            return 0
+        if which != 1 and n_emitted != 0:
+            return 0
+        if a != b or which != 0:
+            pass
+        new_bodies = bodies[n_bodies:]
+        # the helper stores its value whenever it evaluated with the cache on: always for the logging-off helper, and through
+        # the nested (logging-off, cache-on) call for the helper that switches the cache off afterwards
+        stored_b = (a == b) and (which == 0 or (which == 2 and nested))
+        if stored_b:
+            if new_bodies or len(emitted.records) != n_emitted:
+                return 0
+        else:
+            if new_bodies != [b] or len(emitted.records) != n_emitted + 1:
+                return 0
+        return 2
+    finally:
+        llogging.logging = real_logging
